@@ -2558,7 +2558,9 @@ class Binop(Elemwise):
             if not changed:
                 return
 
-            return type(parent)(type(self)(left, right), *parent.operands[1:])
+            # keep the remaining operands (name, axis, level, fill_value)
+            result = self.substitute_parameters({"left": left, "right": right})
+            return type(parent)(result, *parent.operands[1:])
 
     def _node_label_args(self):
         return [self.left, self.right]
